@@ -316,6 +316,11 @@ func (d *trackDialer) closeAll() int {
 	return open
 }
 
+var (
+	leakProbe bool // only during the single-threaded probe phase
+	leakSeen  int
+)
+
 type callResult struct {
 	err      error
 	val      interface{}
@@ -332,8 +337,11 @@ func withAdmin(cl *sarama.VerifCluster, sc *sarama.VerifScript, conf *sarama.Con
 	conf.Net.Proxy.Enable = true
 	conf.Net.Proxy.Dialer = dialer
 	defer func() {
-		if n := dialer.closeAll(); n > 0 {
-			run.Count("observed:case-with-connections-left-open-after-admin-Close")
+		if leakProbe {
+			time.Sleep(300 * time.Millisecond) // client.Close closes its brokers asynchronously
+			leakSeen = dialer.closeAll()
+		} else {
+			dialer.closeAll()
 		}
 	}()
 	cl.Arm(sc)
@@ -1185,6 +1193,11 @@ func probeVariant(cl *sarama.VerifCluster) string {
 		}
 		return "0"
 	}
+	// observation (outside the statement): connections still open after admin.Close() when a controller refresh happened
+	leakProbe = true
+	probe("ct", sarama.VerifReply{Items: map[int32]int16{0: 41}}, okR, okR, okR)
+	leakProbe = false
+	run.Set("observed_connections_left_open_after_Close_following_a_controller_refresh", leakSeen)
 	_, n := probe("ar1", sarama.VerifReply{Top: 41, Items: map[int32]int16{0: 0}}, okR, okR, okR)
 	e2, _ := probe("ar1", sarama.VerifReply{Top: -1, Items: map[int32]int16{0: 0}}, okR, okR, okR)
 	e3, _ := probe("ar2", okR, okR, okR, okR)
